@@ -136,7 +136,8 @@ def run(tier):
     runner = GenRunner(C.scratch, workers=8)
     entries = []
     for t in trees:
-        firsts = FIRSTS if (not quick or t['name'].startswith('mini-eo')) else ['eolib'] + rng.sample(FIRSTS[1:], 5)
+        firsts = FIRSTS if not quick else (['eolib', 'eolib.packet', 'eolib.protocol.net.packet'] + rng.sample(FIRSTS[1:], 6 if t['name'].startswith('mini-eo') else 3))
+        firsts = list(dict.fromkeys(firsts))
         entries.append(dict(name=t['name'], tree=t['tree'], jobs=[dict(op='namespace', declared=declared(t['tree']), firsts=firsts, hashseed=rng.randrange(0, 1000))]))
     run_entries(C, runner, entries)
     nprobe = npaths = 0
@@ -168,5 +169,4 @@ def run(tier):
 
 
 def replay(path):
-    print("replay: the replay file names the tree, the first import and the path/name; re-run `./bin/check C20 quick`")
-    return 0
+    return gen_replay(path)
